@@ -51,7 +51,8 @@ Proof. repeat split; reflexivity. Qed.
 (** the repaired statements are in place *)
 Lemma repairs_in_place :
   null_member_is_none = true /\ body_lookup_both_key_forms = true /\ single_none_is_null = true
-  /\ mp_int_reader_text_only = true.
+  /\ mp_int_reader_strict = true /\ int_slot_float_is_int = true /\ ret_bool_by_identity = true
+  /\ bytes_text_decoded_first = true /\ hier_counts_array_items = false.
 Proof. repeat split; reflexivity. Qed.
 
 (** the leaf handler every protocol instance dispatches to is the one the model
